@@ -123,23 +123,6 @@ theorem gr_divide_and_round_q_last_inplace_eq (r : RNSTool) (p : RnsPoly)
 
 /-! ### reading the flat result, and the end-to-end statement -/
 
-theorem gr_flat_getD (n : Nat) : ∀ (cs : List (List Nat)) (i j : Nat), (∀ c ∈ cs, c.length = n) → i < cs.length → j < n →
-    cs.flatten.getD (i * n + j) 0 = (cs.getD i []).getD j 0 := by
-  intro cs
-  induction cs with
-  | nil => intro i j _ hi; simp at hi
-  | cons c cs ih =>
-    intro i j h hi hj
-    have hc := h c (by simp)
-    rw [List.flatten_cons]
-    cases i with
-    | zero => rw [Nat.zero_mul, Nat.zero_add, gr_getD_append_left _ _ _ _ (by omega)]; rfl
-    | succ i =>
-      rw [gr_getD_append_right _ _ _ _ (by rw [hc, Nat.succ_mul]; omega), List.getD_cons_succ]
-      have : (i + 1) * n + j - c.length = i * n + j := by rw [hc, Nat.succ_mul]; omega
-      rw [this]
-      exact ih i j (fun x hx => h x (by simp [hx])) (by simpa using hi) hj
-
 theorem gr_flatP_getD {r : RNSTool} {p : RnsPoly} (h : gr_Shape r p) {i j : Nat} (hi : i < r.baseQ.size) (hj : j < r.n) :
     (flatP p).getD (i * r.n + j) 0 = (p.getD i #[]).getD j 0 := by
   obtain ⟨hcs, hn⟩ := gr_shape_cs h
